@@ -68,7 +68,9 @@ IfdRules(e) ==
            \o If(~e.json_ok, "DescriptionNotJson")
            \o If(e.json_ok /\ ~e.ids_ok, "DescriptionWrongIds")
            \o If(o.acq.kind = "tiff" /\ i = 0 /\ o.acq.meta /\ e.json_ok /\ ~(e.has_meta /\ e.meta_ok), "MetadataNotOnFirstFrame")
-           \o If(o.acq.kind = "tiff" /\ i = 0 /\ ~o.acq.meta /\ e.json_ok /\ e.has_meta, "MetadataNotTheUsers"))
+           \o If(o.acq.kind = "tiff" /\ i = 0 /\ ~o.acq.meta /\ e.json_ok /\ e.has_meta, "MetadataNotTheUsers")
+           \* the user's metadata belongs to the first frame only, whatever the grouping into append packets
+           \o If(o.acq.kind = "tiff" /\ i > 0 /\ e.json_ok /\ e.has_meta, "MetadataOnLaterFrame"))
 
 EofRules(e) ==
   If(e.stop = "nofile", "FileMissing")
